@@ -1,11 +1,12 @@
 import ScVerif.Base.Line
 import ScVerif.C20.Publication
+import ScVerif.C20.Esc
 /-! Driver op of the Publication model: `pub.seq <op>…`; the clock starts at 1000 and ticks once per op. -/
 namespace ScVerif.C20.Publication
 open ScVerif.Line
 
-def decStr (s : String) : String := if s = "~" then "" else s
-def encStr (s : String) : String := if s = "" then "~" else s
+def decStr (s : String) : String := if s = "~" then "" else unesc s
+def encStr (s : String) : String := if s = "" then "~" else esc s
 
 /-- the driver's concrete instance of the abstract hash: an injective-enough rendering of its inputs -/
 def Hc : Hash := fun id body mt aud => "H(" ++ id ++ "\x00" ++ body ++ "\x00" ++ mt ++ "\x00" ++ aud ++ ")"
